@@ -72,11 +72,17 @@ package hotstuff
 //@   modifies alloc
 
 // Iterators: ForEach / RangeWhile call f zero or more times, each time with a member of the
-// set, and do nothing else (order, count and completeness are not specified here).
+// set that was not passed before, and do nothing else; RangeWhile stops after the first call
+// that returns false; an iteration that is not stopped passes every member (the order is not
+// specified). crypto.Bitfield is proved to iterate this way (C19: members only, strictly
+// ascending, stop at the first false, and as many calls as the set has members).
 //@ interface IDSet.ForEach
 //@   opt iterates f :: setmem(self, it)
+//@   opt iterates-complete true
 //@ interface IDSet.RangeWhile
 //@   opt iterates f :: setmem(self, it)
+//@   opt iterates-complete true
+//@   opt iterates-stops true
 
 //@ func NewPartialCert property C12
 //@   ensures result.signature == signature && result.blockHash == blockHash
